@@ -35,6 +35,7 @@ import fickling.ml as fml  # noqa: E402
 from fickling.exception import UnsafeFileError  # noqa: E402
 import verif_sink  # noqa: E402
 
+ORIG_UNPICKLER = pickle.Unpickler    # the safe ML environment replaces this attribute too (D11 repair)
 SEEN = [ORIG["pl"], ORIG["pls"]]     # keeps every function object alive => tokens are stable
 
 
@@ -96,6 +97,7 @@ def reset(stack):
     pickle.loads = ORIG["pls"]
     _pickle.load = ORIG["cl"]
     _pickle.loads = ORIG["cls"]
+    pickle.Unpickler = ORIG_UNPICKLER
     del stack[:]
 
 
@@ -151,7 +153,8 @@ def main():
             fns = [current(s) for s in SLOTS]
             st = {"ids": [token(f) for f in fns],
                   "cls": [classify(s, f) for s, f in zip(SLOTS, fns)],
-                  "depth": len(stack)}
+                  "depth": len(stack),
+                  "unp": "O" if pickle.Unpickler is ORIG_UNPICKLER else "R"}
             if err:
                 st["op_error"] = err
             if extra is not None:
